@@ -1,5 +1,5 @@
 #!/bin/sh
-# sensitivity.sh [C15|C16|C20] — for every property-breaking change (mutants/c*.patch, seeded/*/patch.diff),
+# sensitivity.sh [C15|C16|C20|neutral] (parts can run side by side: SENS_SLOT=<name> SENS_OUT=<file>) — for every property-breaking change (mutants/c*.patch, seeded/*/patch.diff),
 # one at a time: run the quick check of the property it breaks against a tree with the change and require
 # exit 1 with a VIOLATION line and a replay file that reproduces on the changed tree and is quiet on the clean
 # one; for every neutral change (mutants/neutral_*.patch, neutral/*/patch.diff) require exit 0 from all three
@@ -11,8 +11,8 @@ set -u
 ROOT="$(cd "$(dirname "$0")/.." && pwd)"
 ONLY="${1:-}"
 SLOT="${SENS_SLOT:-sens}"
-OUT="$ROOT/sensitivity_results.txt"
-[ -n "$ONLY" ] && OUT="/dev/null"
+OUT="${SENS_OUT:-$ROOT/sensitivity_results.txt}"
+[ -n "$ONLY" ] && [ -z "${SENS_OUT:-}" ] && OUT="/dev/null"
 : > "$OUT"
 # freeze the machinery under test: later edits in /verif do not leak into a running experiment series
 export VERIF_SRC="/tmp/iso-$SLOT-src"
@@ -25,7 +25,7 @@ run_breaking() { # name patch property
     echo "${verdict:-MISSED} $1 $rest" | tee -a "$OUT"
 }
 run_neutral() { # name patch
-    if [ -n "$ONLY" ]; then return; fi
+    if [ -n "$ONLY" ] && [ "$ONLY" != neutral ]; then return; fi
     line=$("$ROOT/scripts/try_isolated.sh" "$SLOT" "$2" C15 neutral 2>&1 | grep -aE '^(QUIET|ALARM)' | head -1)
     verdict=${line%% *}; rest=${line#* }
     echo "${verdict:-ALARM} $1 (neutral change) $rest" | tee -a "$OUT"
@@ -50,7 +50,7 @@ for d in "$ROOT"/neutral/*/; do
     run_neutral "neutral/$(basename "$d")" "$d/patch.diff"
 done
 # the unchanged tree
-if [ -z "$ONLY" ]; then
+if [ -z "$ONLY" ] || [ "$ONLY" = neutral ]; then
     line=$("$ROOT/scripts/try_isolated.sh" "$SLOT" - C15 neutral 2>&1 | grep -aE '^(QUIET|ALARM)' | head -1)
     echo "clean tree: $line" | tee -a "$OUT"
 fi
